@@ -53,10 +53,19 @@ def gen_program(rng, nops):
             ops.append('po %d %d' % (t, rng.choice(futures)))
         elif r < 0.985 and futures:
             f = rng.choice(futures); futures.remove(f)
-            ops.append('df %d %d %d' % (t, f, held[f]) if f in held else 'df %d %d' % (t, f))
+            if rng.random() < 0.3:
+                # `into_inner()` instead of dropping the wrapper
+                ops.append('ii %d %d %d' % (t, f, held[f]) if f in held else 'ii %d %d' % (t, f))
+            else:
+                ops.append('df %d %d %d' % (t, f, held[f]) if f in held else 'df %d %d' % (t, f))
         else:
             c = rng.choice(['1', '2', '-']); ops.append('sd %d %s' % (t, c)); dflt[t] = c
     return ' ; '.join(ops)
+
+import re
+def model_case(case):
+    """`ii t f k` (into_inner of a wrapper whose inner future owns handle k, the inner then dropped) = `ii t f ; dr t k`"""
+    return re.sub(r'ii (\d+) (\d+) (\d+)', r'ii \1 \2 ; dr \1 \3', case)
 
 def gen(rng, tier):
     n = 600 if tier == 'quick' else 12000
@@ -96,6 +105,9 @@ def judge_log(case, out):
                 if depth[k] < 0: return 'bad exit-without-enter ' + tok
     return 'ok'
 
+_prog = Stream('prog', 'h_span', gen=gen, nontrivial=nontrivial)
+_prog.model_case = model_case
+
 PROPERTY = {
     'manifest': {
         'text': "Lean 4 theorems over every finite program of the modelled Span API (new/clone/drop, entered/exit/guard drop in any order, in_scope, record, follows_from, "
@@ -115,7 +127,7 @@ PROPERTY = {
     'required_theorems': ['C03.refcount', 'C03.step_rc', 'C03.closes_match_when_gone', 'C03.disabled_silent', 'C03.own_collector', 'C03.future_drop_releases_inner',
                           'C03.enter_exit_balance', 'C03.no_exit_without_enter', 'C03.enters_matched_when_no_guard', 'C03.step_eb',
                           'C03.silent_after_last_close', 'C03.nothing_after_zero', 'C03.step_sok', 'C03.step_ec'],
-    'streams': [Stream('prog', 'h_span', gen=gen, nontrivial=nontrivial)],
+    'streams': [_prog],
     'rule': 'one case = one program of 15-60 ops over <=3 threads, two recording collectors (one rejecting DEBUG spans) or none as each thread\'s default, handles moved freely between threads; '
             'non-trivial = >=2 spans created, enters and closes present and either both collectors used or a clone_span observed',
     'trusted_base': ['hand-written model Core/SpanHandle.lean', 'executor h_span (real Span/EnteredSpan/Instrumented)'],
